@@ -505,9 +505,9 @@ pub fn mirror_hash_now(repo: &Path) -> String {
     mirrored_text_hash(repo).unwrap_or_default()
 }
 
-pub fn replay(doc: &Value, file: &str) -> i32 {
+pub fn replay(doc: &Value, file: &str, verif: &Path) -> i32 {
     // rebuild the shipped macro from the current working tree first
-    let cmd = match prepare_crate(Path::new("/verif"), Path::new("/repo")) {
+    let cmd = match prepare_crate(verif, Path::new("/repo")) {
         Ok((_, cmd)) => cmd,
         Err(e) => {
             eprintln!("HARNESS-ERROR: {}", e.0);
@@ -527,7 +527,7 @@ pub fn replay(doc: &Value, file: &str) -> i32 {
         }
     };
     let (a, b) = (load(&doc["session_a"]), load(&doc["session_b"]));
-    let base = PathBuf::from("/verif/scratch/bridge/replay");
+    let base = verif.join("scratch/bridge/replay");
     let oa = run_session(&cmd, &preload, &base.join("a"), &a);
     let ob = run_session(&cmd, &preload, &base.join("b"), &b);
     match (oa, ob) {
